@@ -44,6 +44,8 @@ pub struct FaultProfile {
     pub faults_until: Option<Duration>,
     /// from this time on every datagram has 1-8 random bits flipped
     pub corrupt_from: Option<Duration>,
+    /// every k-th datagram (while faults are on) gets bit `0x08 << (ord % 2)` of its first byte flipped
+    pub flip_first_byte_every: Option<u64>,
     /// explicit ordinals to drop
     pub drop_ordinals: Vec<u64>,
 }
@@ -62,6 +64,7 @@ impl Default for FaultProfile {
             dead_from: None,
             faults_until: None,
             corrupt_from: None,
+            flip_first_byte_every: None,
             drop_ordinals: vec![],
         }
     }
@@ -91,6 +94,7 @@ impl FaultProfile {
             dead_from: ms("dead_from_ms"),
             faults_until: ms("faults_until_ms"),
             corrupt_from: ms("corrupt_from_ms"),
+            flip_first_byte_every: v.get("flip_first_byte_every").and_then(|x| x.as_u64()),
             drop_ordinals: v
                 .get("drop_ordinals")
                 .and_then(|x| x.as_array())
@@ -107,6 +111,7 @@ impl FaultProfile {
             "mute_after": self.mute_after, "dead_from_ms": self.dead_from.map(|d| d.as_millis() as u64),
             "faults_until_ms": self.faults_until.map(|d| d.as_millis() as u64),
             "corrupt_from_ms": self.corrupt_from.map(|d| d.as_millis() as u64),
+            "flip_first_byte_every": self.flip_first_byte_every,
             "drop_ordinals": self.drop_ordinals,
         })
     }
@@ -398,6 +403,9 @@ impl SimNet {
                     })
                     .collect();
                 fate = Fate::Flip(bits);
+            } else if faults_on && p.flip_first_byte_every.is_some_and(|k| k > 0 && ord % k == k - 1) && !data.is_empty() {
+                // bits 3/4 of the first byte: reserved bits of a short header, reserved / pn-length bits of a long header
+                fate = Fate::Flip(vec![3 + (ord / p.flip_first_byte_every.unwrap() % 2) as usize]);
             } else if faults_on {
                 // draw all decisions in a fixed order so the stream of random numbers is stable
                 let r_loss = g.rng.below(1000) as u32;
